@@ -79,3 +79,40 @@ def utf8_soup(rng, n, maxlen=24):
 
 def dedup(cases):
     return list(dict.fromkeys(cases))
+
+
+# exhaustive short token sequences in the syntactic contexts whose parsing code has guarded panic
+# sites or multi-way disambiguation (slice/index, parameter lists, struct fields, control headers,
+# type-parameter lists, interface elements, simple statements)
+CONTEXTS = [
+    ('slice',     'expr', 'a[{}]',                         ['x', ':', ',', '...'],                              7, 6),
+    ('call',      'expr', 'f({})',                         ['x', ',', '...', 'T', '[]T', '*'],                  5, 4),
+    ('params',    'file', 'package p; func f({}) {{}}',     ['a', 'T', ',', '...', '[]', '*', '[N]'],            5, 4),
+    ('results',   'file', 'package p; func f() ({}) {{}}',  ['a', 'T', ',', '*', '[]', '('],                     5, 4),
+    ('recv',      'file', 'package p; func ({}) m() {{}}',  ['a', 'T', ',', '*', '[', ']', '_'],                 5, 4),
+    ('fields',    'file', 'package p; type S struct{{ {} }}', ['a', 'T', ',', '*', '.', ';', '"t"', '[', ']', '1'],  5, 4),
+    ('for',       'stmt', 'for {} {{}}',                    ['x', ';', ':=', 'range', ',', '=', 'y++', '<-'],    5, 4),
+    ('switch',    'stmt', 'switch {} {{}}',                 ['x', ';', ':=', '.(type)', '=', '+=', 'y', '()'],   5, 4),
+    ('if',        'stmt', 'if {} {{}}',                     ['x', ';', ':=', 'T{{}}', '(', ')', '=', '!'],         5, 4),
+    ('typeparams','file', 'package p; type T[{}] int',     ['P', 'any', ',', '*', '|', '~', '(', ')', '[', ']', '3'], 5, 4),
+    ('iface',     'file', 'package p; type I interface{{ {} }}', ['m', '(', ')', '|', '~', 'T', ';', '*', '[', ']', '.'], 5, 4),
+    ('simple',    'stmt', '{}',                            ['x', ',', '=', ':=', ':', '<-', '++', '+=', 'y', '1'], 5, 4),
+    ('case',      'stmt', 'switch x {{ {} }}',              ['case', 'default', ':', 'x', ',', ';', 'T', 'fallthrough'], 5, 4),
+    ('select',    'stmt', 'select {{ {} }}',                ['case', 'default', ':', 'x', '<-', ':=', '=', ';', ','], 5, 4),
+    ('import',    'file', 'package p; import {}',          ['"a"', '(', ')', ';', 'x', '.', '_', '\n'],          5, 4),
+    ('complit',   'expr', 'T{{{}}}',                        ['x', ':', ',', '{', '}', '1', '[', ']'],             5, 4),
+    ('arraytype', 'file', 'package p; var v [{}]int',      ['N', '...', '3', '*', ']', '[', 'T', ','],           5, 4),
+    ('chan',      'file', 'package p; var v {}',           ['chan', '<-', 'int', '(', ')', '*', '[]'],           6, 5),
+    ('unaryexpr', 'expr', '{}',                            ['<-', 'chan', 'x', '(', ')', '*', '&', 'int', '.f'],  5, 4),
+]
+
+
+def contexts(thorough=False):
+    import itertools
+    out = []
+    for name, mode, tmpl, alpha, nt, nq in CONTEXTS:
+        n = nt if thorough else nq
+        for k in range(0, n + 1):
+            for t in itertools.product(alpha, repeat=k):
+                out.append((name, mode, tmpl.format(' '.join(t))))
+    return out
